@@ -60,6 +60,8 @@ def run_jobs(docs, cfgs, base):
         out = os.path.join(out_dir, "%s__%s" % (d.name, c), "gen.rs")
         main = os.path.join(idl_dir, d.name, d.main)
         flags = [f for f in cfg_flags(c) if not (d.mode == "proto" and f == "--keep")]
+        if d.dedup:
+            flags += ["--dedup", ",".join(d.dedup)]
         inc = [os.path.join(idl_dir, d.name)] if d.mode == "proto" else []
         t0 = time.time()
         rc, log = gen.run_builder(vgen, d.mode, [main], out, flags, include_dirs=inc, timeout=60)
